@@ -1,6 +1,19 @@
 """Per-property manifest entries. Only properties with a working check appear in CHECKS."""
 
 CHECKS = {
+    "C04": {
+        "level": "exploration",
+        "technique": "exhaustive binding-site x read-site matrix; resolution-order model from the statement; reserved-name and kwargs enumeration",
+        "text": ("Every subset (size <=2, plus 10 triples) of the binding sites {context, page arg, body assignment, def argument, "
+                 "enclosing-def local, loop target, module level, imported def, builtin} of one name is read at each of 9 read sites "
+                 "(body, top-level def, nested def, anonymous/named block, call body, control line, tag attribute, filter argument) "
+                 "under strict_undefined on/off and compared with a resolution function written from the statement; "
+                 "read-before-assignment must raise UnboundLocalError in 5 scopes; every reserved name x 8 assignment forms x 5 scopes "
+                 "x enable_loop and x 5 render entry points must (not) raise NameConflictError; context.kwargs and context isolation "
+                 "are probed at every scope with hypothesis-drawn arguments. The matrix is enumerated completely."),
+        "note": ("Trusted: the resolution function in vf/props/c04.py. Combinations the statement does not determine (body/page/loop "
+                 "binding read from a named block) are skipped and counted. The native-exec differential of statement blocks is part of C19."),
+    },
     "C06": {
         "level": "exploration",
         "technique": "hypothesis-generated inheritance chains; chain model (self/next/parent/local resolution, base-most block rule)",
